@@ -484,7 +484,12 @@ fn gen_case(g: &mut G) -> Case {
             match g.r.below(3) {
                 0 => { let cols = vec![g.column(false), g.column(false)]; let (f, fv, _) = g.fk(&tn, &cols, true); Case { what: "create foreign key", sql: render(&|| f.build_any(&*qb(b))), expect: Some(n("alter-table", vec![l(format!("table:{tn}")), n("add", vec![n("foreign-key", fv)])])), class: None } }
                 1 => { let x = g.name("fk"); let st = ForeignKey::drop().name(x.as_str()).table(a(&tn)).to_owned(); Case { what: "drop foreign key", sql: render(&|| st.build_any(&*qb(b))), expect: Some(n("alter-table", vec![l(format!("table:{tn}")), n(if b == B::Mysql { "drop-foreign-key" } else { "drop-constraint" }, vec![l(x)])])), class: None } }
-                _ => { let x = g.name("ix"); let mut st = Index::drop(); st.name(x.as_str()).table(a(&tn)); let mut v = Vec::new(); if b == B::Postgres && g.r.chance(1, 2) { st.if_exists(); v.push(l("IF EXISTS")); } v.push(l(format!("name:{x}"))); if b == B::Mysql { v.push(l(format!("table:{tn}"))); }
+                _ => { let x = g.name("ix"); let mut st = Index::drop(); st.name(x.as_str());
+                    // Postgres: an index is dropped by its (schema-qualified) name; the schema is taken from the table reference
+                    let schema = if b == B::Postgres && g.r.chance(1, 2) { Some(g.name("sc")) } else { None };
+                    match &schema { Some(sc) => { st.table((a(sc), a(&tn))); } None => { st.table(a(&tn)); } }
+                    let mut v = Vec::new(); if b == B::Postgres && g.r.chance(1, 2) { st.if_exists(); v.push(l("IF EXISTS")); }
+                    v.push(l(match &schema { Some(sc) => format!("name:{sc}\u{1}{x}"), None => format!("name:{x}") })); if b == B::Mysql { v.push(l(format!("table:{tn}"))); }
                     Case { what: "drop index", sql: render(&|| st.build_any(&*qb(b))), expect: Some(n("drop-index", v)), class: None } }
             }
         }
